@@ -432,6 +432,15 @@ def no_cross_call_state(ctx, rep, R, rel, fname):
            "generate() uses the module-level container(s) %s / decorator %s: a document produced for one tree can be returned for another" % (used, deco))
 
 
+@SPEC.rule(
+    "R25.9",
+    "every <item> carries the name of the attribute it was built for: no function of the XML generator reads a for-loop's variable after that loop has ended (the value the last iteration left behind)",
+)
+def r25_9(ctx, rep):
+    from ._literal import no_stale_loop_variables
+    no_stale_loop_variables(ctx, rep, "R25.9", XML, "the XML generator")
+
+
 # -- seeded variants ---------------------------------------------------------
 from ._mut import replace_in_func  # noqa: E402
 
@@ -529,6 +538,18 @@ def _m_falsy(mod):
                     if isinstance(st, ast.If) and "is None" in norm(st.test):
                         st.test = ast.UnaryOp(op=ast.Not(), operand=st.test.left)
                         return True
+        return False
+
+    return mod if replace_in_func(mod, "XmlGenerator.exitSymbol", edit) else None
+
+
+@SPEC.mutant("fixed item named by the previous loop's variable", XML, "R25.9", "no loop variable is read")
+def _m_stale_f(mod):
+    def edit(fn):
+        for i, st in enumerate(fn.body):
+            if isinstance(st, ast.For) and norm(st.iter) == "['fixed']":
+                fn.body[i] = ast.parse("if tree.fixed.value:\n    items.append(E('item', E('true'), name=f))").body[0]
+                return True
         return False
 
     return mod if replace_in_func(mod, "XmlGenerator.exitSymbol", edit) else None
